@@ -50,7 +50,14 @@ CLAIMS = {
                      "Not proved, tied by differential runs in the check: for exact_errors = false the chunked-queue "
                      "interpreter with bulk reads agrees with the reference semantics up to merging of adjacent character "
                      "tokens and the fast path's missing per-character errors; the Rust "
-                     "tokenizer agrees with that interpreter; tree-builder half. Oracle: metamorphic chunking / script-injection "
+                     "tokenizer agrees with that interpreter. Tree-builder half (that splitting a character token does not change the "
+                     "tree), over the tree-builder model of C02: proved for the 'text' insertion mode only "
+                     "(C03_tree_text_mode_split_partial: one character token or two give the same answers, states equal up to "
+                     "the event log - leading-LF dropping included - and the same abstract DOM, because DomSpec merges adjacent "
+                     "text: C03_tree_append_text_merges) plus the invariance of the pending-table-text white-space test "
+                     "(C03_tree_pending_table_text_test); NOT proved: the other mode groups (in body and its delegators, table "
+                     "text flush, leading-white-space splitting) and the frame property needed for whole token lists - see the "
+                     "header of coq/Tree/TreeSplit.v. Oracle: metamorphic chunking / script-injection "
                      "runs on the implementation (tokens, errors, lines, final tree).",
                 note=TOK_NOTE, tech="generic Coq suspend/resume proof over regenerated TokIR table + reference/chunked/impl differential + chunking oracle"),
     "C04": dict(cat="proof", ref="DESIGN.md section 5 C04",
